@@ -171,9 +171,16 @@ int gettimeofday(struct timeval *tv, void *tz) noexcept
     }
     return r;
 }
+long long g_uptimeOffsetNs = 0; // VERIF_UPTIME_DAYS: the machine / the process has been up that much longer
+
 int clock_gettime(clockid_t id, struct timespec *ts) noexcept
 {
     int r = int(syscall(SYS_clock_gettime, id, ts));
+    if (r == 0 && g_uptimeOffsetNs && (id == CLOCK_MONOTONIC || id == CLOCK_BOOTTIME || id == CLOCK_MONOTONIC_RAW || id == CLOCK_MONOTONIC_COARSE)) {
+        long long ns = (long long)ts->tv_sec * 1000000000LL + ts->tv_nsec + g_uptimeOffsetNs;
+        ts->tv_sec = ns / 1000000000LL;
+        ts->tv_nsec = ns % 1000000000LL;
+    }
     if (r == 0 && id == CLOCK_REALTIME && g_clockOffsetNs) {
         long long ns = (long long)ts->tv_sec * 1000000000LL + ts->tv_nsec + g_clockOffsetNs;
         ts->tv_sec = ns / 1000000000LL;
@@ -981,6 +988,7 @@ int main(int argc, char **argv)
     }
     if (getenv("VERIF_FLUSH")) std::cout << std::unitbuf;
     if (const char *lag = getenv("VERIF_LAG_MS")) g_lagMs = atoll(lag);
+    if (const char *up = getenv("VERIF_UPTIME_DAYS")) g_uptimeOffsetNs = atoll(up) * 86400LL * 1000000000LL;
     std::string line;
     while (std::getline(in, line)) {
         if (line.empty() || line[0] == '#') continue;
@@ -1063,6 +1071,32 @@ int main(int argc, char **argv)
                 outText = jf.format(m);
             }
             std::cout << "R " << id << " " << hexs(outText) << " " << stamp(m) << "\n";
+        } else if (cmd == "J3") {
+            // one message formatted twice: inside a scoped sub-pipeline that changes its attributes, and again after the scope has put the
+            // original attributes back -> two records, "R id <inner> <outer> stamp"
+            bool compact = k.num() != 0;
+            QString addName = unhexs(k.next());
+            QVariant addValue = parseValue(k);
+            MsgSpec ms;
+            ms.parse(k);
+            LogMessage m = ms.make();
+            QString inner, outer;
+            SimplePipeline sp;
+            auto &scoped = sp.pipeline();
+            scoped.attrHandler([addName, addValue](const LogMessage &) { return QVariantHash { { addName, addValue } }; });
+            scoped.formatToJson(compact);
+            scoped.handler([&inner](LogMessage &lm) {
+                inner = lm.formattedMessage();
+                return true;
+            });
+            scoped.end();
+            sp.formatToJson(compact);
+            sp.handler([&outer](LogMessage &lm) {
+                outer = lm.formattedMessage();
+                return true;
+            });
+            sp.process(m);
+            std::cout << "R " << id << " " << hexs(inner) << " " << hexs(outer) << " " << stamp(m) << "\n";
         } else if (cmd == "Y") {
             QString sdkn = unhexs(k.next());
             QString sdkv = unhexs(k.next());
